@@ -73,6 +73,14 @@ import (
 
 func Apply(setter, k, v string) { apply(setter, k, v) }
 func Call(f func())              { f() }
+
+// Writer's methods write a parameter; instances live wherever they are stored.
+type Writer struct{ Tag string }
+
+func (w *Writer) Set(setter, k, v string) { apply(setter, k, v) }
+func (w Writer) SetV(setter, k, v string) { apply(setter, k, v) }
+
+type Setter interface{ Set(setter, k, v string) }
 ` + c13Apply
 
 const c13SrcB = `package atkb
@@ -81,10 +89,27 @@ import (
 	"chain/params"
 	"strconv"
 	"strings"
+
+	"gno.land/p/atk/help"
 )
 
 func Invoke(cur realm, f func())          { f() }
 func Do(cur realm, setter, k, v string) { apply(setter, k, v) }
+
+// Objects stored (and therefore owned) by this realm whose methods write a
+// parameter: calling them from another realm borrows this realm's storage
+// context without crossing into it.
+var (
+	W  = &help.Writer{Tag: "b"}
+	WV = help.Writer{Tag: "bv"}
+	BI = &Own{N: 1}
+)
+
+func GetW() *help.Writer { return W }
+
+type Own struct{ N int }
+
+func (o *Own) Set(setter, k, v string) { apply(setter, k, v) }
 ` + c13Apply
 
 const c13SrcA = `package atka
@@ -125,6 +150,23 @@ func Do(cur realm, ctx, s, k, v string) {
 		}()
 	case "selfcross":
 		Do(cross(cur), "direct", s, k, v)
+	case "bw-method":
+		atkb.W.Set(s, k, v)
+	case "bw-methodvalue":
+		f := atkb.W.Set
+		help.Call(func() { f(s, k, v) })
+	case "bw-iface":
+		var i help.Setter = atkb.W
+		i.Set(s, k, v)
+	case "bw-getter":
+		atkb.GetW().Set(s, k, v)
+	case "bw-value":
+		atkb.WV.SetV(s, k, v)
+	case "bw-realmtype":
+		atkb.BI.Set(s, k, v)
+	case "bw-realmtype-iface":
+		var i help.Setter = atkb.BI
+		func(j help.Setter) { j.Set(s, k, v) }(i)
 	default:
 		panic("bad ctx")
 	}
@@ -180,13 +222,24 @@ type c13Op struct {
 	// record the write addresses (same length, other content), so that the
 	// write is a same-size overwrite.
 	Pre bool `json:"pre,omitempty"`
+	// PreVictim: before a borrowed-receiver write, the victim realm creates
+	// its own parameter under the same key through its own crossing function.
+	PreVictim bool `json:"pre_victim,omitempty"`
 }
 
 type c13Case struct {
 	Ops []c13Op `json:"ops"`
 }
 
-var c13Ctxs = []string{"direct", "direct", "method", "phelper", "pcallback", "callback", "crossb", "defer", "recover", "selfcross"}
+var c13Ctxs = []string{"direct", "direct", "method", "phelper", "pcallback", "callback", "crossb", "defer", "recover", "selfcross",
+	// borrowed receiver: a non-crossing method call on an object that lives in the victim realm atkb
+	"bw-method", "bw-methodvalue", "bw-iface", "bw-getter", "bw-value", "bw-realmtype", "bw-realmtype-iface"}
+
+var c13BwCalls = map[string]string{
+	"bw-method": "atkb.W.Set(S, K, V)", "bw-methodvalue": "f := atkb.W.Set\n\tfunc(g func(string, string, string)) { g(S, K, V) }(f)",
+	"bw-iface": "var i help.Setter = atkb.W\n\ti.Set(S, K, V)", "bw-getter": "atkb.GetW().Set(S, K, V)", "bw-value": "atkb.WV.SetV(S, K, V)",
+	"bw-realmtype": "atkb.BI.Set(S, K, V)",
+}
 var c13Setters = []string{"string", "string", "bool", "int64", "uint64", "bytes", "strings", "upd+", "upd-"}
 
 // Hostile key material. Everything without an ASCII ':' and non-empty is a
@@ -281,10 +334,13 @@ func c13DrawOp(rt *rapid.T) c13Op {
 		s := rapid.SampledFrom(c13Setters).Draw(rt, "setter")
 		op := c13Op{Kind: "realm", Ctx: rapid.SampledFrom(c13Ctxs).Draw(rt, "ctx"), Setter: s, Key: c13DrawKey(rt), Val: c13DrawVal(rt, s)}
 		op.Pre = s == "string" && op.Ctx != "callback" && rapid.IntRange(0, 2).Draw(rt, "pre") == 0
+		op.PreVictim = strings.HasPrefix(op.Ctx, "bw-") && rapid.Bool().Draw(rt, "previctim")
 		return op
 	case k == 6:
 		s := rapid.SampledFrom(c13Setters).Draw(rt, "setter")
-		return c13Op{Kind: "run", Ctx: rapid.SampledFrom([]string{"main", "cross"}).Draw(rt, "ctx"), Setter: s, Key: c13DrawKey(rt), Val: c13DrawVal(rt, s)}
+		op := c13Op{Kind: "run", Ctx: rapid.SampledFrom([]string{"main", "cross", "bw-method", "bw-methodvalue", "bw-iface", "bw-getter", "bw-value", "bw-realmtype"}).Draw(rt, "ctx"), Setter: s, Key: c13DrawKey(rt), Val: c13DrawVal(rt, s)}
+		op.PreVictim = strings.HasPrefix(op.Ctx, "bw-") && rapid.Bool().Draw(rt, "previctim")
+		return op
 	case k == 7:
 		return c13Op{Kind: "init", Setter: "string", Key: c13DrawKey(rt), Val: "i"}
 	default:
@@ -442,6 +498,14 @@ func c13Expected(setter, v string) ([]byte, bool) {
 }
 
 func c13RunSrc(op c13Op) string {
+	if call, ok := c13BwCalls[op.Ctx]; ok {
+		call = strings.NewReplacer("S", strconv.Quote(op.Setter), "K", strconv.Quote(op.Key), "V", strconv.Quote(op.Val)).Replace(call)
+		imp := "import \"" + c13PathB + "\"\n"
+		if strings.Contains(call, "help.") {
+			imp = "import (\n\t\"" + c13PathHelp + "\"\n\t\"" + c13PathB + "\"\n)\n"
+		}
+		return "package main\n\n" + imp + "\nfunc main() {\n\t" + call + "\n}\n"
+	}
 	if op.Ctx == "cross" {
 		return "package main\n\nimport \"" + c13PathA + "\"\n\nfunc main(cur realm) {\n\tatka.Do(cross(cur), \"direct\", " +
 			strconv.Quote(op.Setter) + ", " + strconv.Quote(op.Key) + ", " + strconv.Quote(op.Val) + ")\n}\n"
@@ -486,6 +550,10 @@ func c13Exec(ctx *vk.Ctx, c c13Case) error {
 			}
 			steps = append(steps, c13Op{Kind: "sys", Via: "sysrealm", Setter: "string", Mod: "vm", Sub: sub, Name: name, Val: string(alt)})
 		}
+		if op.PreVictim && strings.HasPrefix(op.Ctx, "bw-") {
+			// the victim writes its own parameter (the key may be refused; then nothing exists, which is fine)
+			steps = append(steps, c13Op{Kind: "victim", Setter: op.Setter, Key: op.Key, Val: "9" + op.Val})
+		}
 		steps = append(steps, op)
 	}
 	for i, op := range steps {
@@ -504,6 +572,9 @@ func c13Exec(ctx *vk.Ctx, c c13Case) error {
 			default:
 				allowed, exactRealm = []string{c13PathA}, c13PathA
 			}
+		case "victim":
+			msg = ec.Call(e.keys[0].Addr, c13PathB, "Do", []string{op.Setter, op.Key, op.Val}, nil)
+			allowed, exactRealm = []string{c13PathB}, c13PathB
 		case "run":
 			msg = ec.HMsg{Kind: "run", Body: c13RunSrc(op)}.Build(user.Addr, e.keys)
 			if op.Ctx == "cross" {
